@@ -37,6 +37,9 @@ CHECKS = {
  "C07": ("model_checking", "complete sub-product enumeration (file types, styles x options, templates x targets, hostile tokens, multi-file invocations) with read-back through lint",
          "S1 every file type x mode x value set x prior content, S2 every style x mode x prefix x year x holder, S3 templates x target variants, S4 every comment token of any style in holder/contributor x style x mode, S5 every ordered selection of 4 files with different prior information (one shadowed by a .license) with and without -r: success => lint reads back exactly prior U requested; failure => tree unchanged",
          "holder grammar of 4 + token-built values; default year accepted as the year before/after the call", "4/C07"),
+ "C11": ("fault_enumeration", "exhaustive enumeration of failing-file subsets x argument orders x targets, whole-tree snapshot oracle",
+         "every ordered selection of 3 of 9 file kinds x every non-empty set of comment terminators in the holder (which makes exactly the files of those styles fail) with >= 1 failing file, information-dropping templates x targets, and every usage-error cell with the offending file in each position: failing files and siblings byte-identical, none created, healthy files annotated, exit status 1 (2 for usage errors with nothing touched)",
+         "anticipated failure causes only (those the statement lists)", "4/C11"),
 }
 PENDING_REASON = "check not built yet in this session (design in DESIGN.md section 4); not claimed until its machinery exists"
 
